@@ -1,7 +1,249 @@
-"""Remaining C04 rules (D1, D2, D3a, D4) - filled in below."""
-from ..engine import Repo
+"""C04 rules D1 (no ambient inputs), D2 (key-order insensitivity), D4 (same functions on both paths),
+D5 (commutative normalisation = the C12 rules)."""
+from __future__ import annotations
+
+import ast
+from typing import Dict, List, Optional, Set, Tuple
+
+from ..engine import (
+    AnalysisError,
+    FuncNode,
+    Repo,
+    ancestors,
+    assigned_value,
+    call_attr,
+    call_name,
+    calls_in,
+    dotted_name,
+    kwarg,
+    norm,
+    qualname_of,
+    stmt_of,
+    walk_no_nested,
+)
 from ..report import Report
+
+GRAPH = "semantiva/pipeline/graph_builder.py"
+SEM = "semantiva/metadata/semantic_id.py"
+SWEEP = "semantiva/data_processors/parametric_sweep_factory.py"
+BUILDER = "semantiva/inspection/builder.py"
+ORCH = "semantiva/execution/orchestrator/orchestrator.py"
+IDENT = "semantiva/trace/runtime/run_space_identity.py"
+PREP = "semantiva/pipeline/node_preprocess.py"
+DESC = "semantiva/registry/descriptors.py"
+
+AMBIENT_PREFIXES = ("time.", "random.", "secrets.", "datetime.", "os.environ", "os.getpid", "os.getcwd", "os.urandom", "socket.", "platform.", "getpass.")
+AMBIENT_CALLS = {"uuid.uuid1", "uuid.uuid4", "uuid.uuid7", "uuid1", "uuid4", "id", "hash", "getpid", "getcwd", "time", "now", "utcnow", "today", "urandom", "random", "randint", "token_hex", "perf_counter", "monotonic"}
+# hashing helpers and who may use which id prefix
+PREFIX_OWNERS = {"plid-": (GRAPH, "compute_pipeline_id"), "plsemid-": (SEM, "compute_pipeline_semantic_id"), "plcid-": (SEM, "compute_pipeline_config_id")}
+
+
+def identity_slice(repo: Repo) -> List[Tuple[str, str, ast.AST]]:
+    """Functions whose code determines an identity (call-graph closure inside the package)."""
+    roots: List[Tuple[str, str]] = [
+        (GRAPH, "build_canonical_spec"), (GRAPH, "_canonical_node"), (GRAPH, "compute_pipeline_id"), (GRAPH, "compute_upstream_map"),
+        (SEM, "compute_node_semantic_id"), (SEM, "compute_pipeline_config_id"), (SEM, "compute_pipeline_semantic_id"),
+        (SEM, "normalize_expression_sig_v1"), (SEM, "_dump_ast_commutative"), (SEM, "variable_domain_signature"), (SEM, "_sha256_json"), (SEM, "_strip_ui_only"),
+        (BUILDER, "build_inspection_payload"), (BUILDER, "_compute_run_space_spec_id"), (BUILDER, "_normalize_run_space"), (BUILDER, "_collect_required_context_keys"), (BUILDER, "_build_sweep_payload"),
+        (IDENT, "RunSpaceIdentityService._rscf_v1"), (IDENT, "RunSpaceIdentityService._hash"),
+        (DESC, "descriptor_to_json"), (PREP, "preprocess_node_config"),
+    ]
+    out = []
+    seen = set()
+    for rel, qn in roots:
+        f = repo.maybe_func(rel, qn)
+        if f is None:
+            raise AnalysisError(f"identity slice anchor vanished: {rel}:{qn}")
+        out.append((rel, qn, f))
+        seen.add(id(f))
+        # nested helpers
+        for n in ast.walk(f):
+            if isinstance(n, FuncNode) and n is not f and id(n) not in seen:
+                seen.add(id(n))
+                out.append((rel, qualname_of(n), n))
+    create = repo.func(SWEEP, "ParametricSweepFactory.create")
+    pm = next((n for n in ast.walk(create) if isinstance(n, FuncNode) and n.name == "_preprocessor_metadata"), None)
+    if pm is None:
+        raise AnalysisError("_preprocessor_metadata vanished")
+    out.append((SWEEP, qualname_of(pm), pm))
+    return out
 
 
 def run(repo: Repo, R: Report) -> None:
-    return None
+    # ------------------------------------------------------------------ D1 ambient inputs
+    r_amb = R.rule("C04-D1-no-ambient-input", "no function of the identity slice reads a clock, random source, process/host/environment value, object address or salted hash; the run id (uuid4) never flows into an identity", 20)
+    sl = identity_slice(repo)
+    for rel, qn, f in sl:
+        bad = None
+        for c in calls_in(f):
+            d = call_name(c) or ""
+            tail = d.split(".")[-1]
+            if not d and call_attr(c) in ("getcwd", "getpid", "urandom", "uuid4", "uuid1", "perf_counter", "monotonic", "time_ns", "gethostname", "getenv"):
+                bad = c
+                break
+            if d.startswith(AMBIENT_PREFIXES) or d in AMBIENT_CALLS or (tail in AMBIENT_CALLS and d.split(".")[0] in ("uuid", "time", "datetime", "random", "os", "secrets")):
+                bad = c
+                break
+        for n in walk_no_nested(f):
+            if isinstance(n, ast.Attribute) and dotted_name(n) in ("os.environ", "sys.argv"):
+                bad = bad or n
+        R.check(bad is None, r_amb, rel, qn, f"{qn}: no ambient source", f"`{norm(bad)[:60]}` makes the identity depend on time / process / host / hash seed" if bad is not None else "", f.lineno)
+    # execute: ids are computed from canonical + processor metadata only; run_id (uuid4) feeds pipeline_start/SER identity only
+    ex = repo.func(ORCH, "SemantivaOrchestrator.execute")
+    for c in calls_in(ex):
+        if call_attr(c) in ("compute_pipeline_id", "compute_pipeline_semantic_id", "compute_pipeline_config_id", "compute_node_semantic_id"):
+            names = {x.id for a in c.args for x in ast.walk(a) if isinstance(x, ast.Name)}
+            tainted = {"run_id", "run_token", "payload", "data", "context", "trace", "logger", "transport"} & names
+            R.check(not tainted, r_amb, ORCH, "SemantivaOrchestrator.execute", norm(c)[:70], f"a volatile / per-run value ({sorted(tainted)}) is hashed into an identity", c.lineno)
+
+    # ------------------------------------------------------------------ D2 key-order insensitivity
+    r_ord = R.rule("C04-D2-key-order-insensitive", "every value that reaches a hash comes from json.dumps(sort_keys=True) or from a normaliser that rebuilds dicts over sorted keys; no list inside a hashed structure inherits mapping or set order", 10)
+    n_sites = 0
+    for rel, qn, f in sl + [(ORCH, "SemantivaOrchestrator.execute", ex)]:
+        for c in calls_in(f):
+            d = call_name(c) or ""
+            if d in ("hashlib.sha256", "uuid.uuid5") or (d.endswith(".update") and "digest" in d):
+                n_sites += 1
+                arg = c.args[-1] if c.args else None
+                dumps = _dumps_feeding(f, arg)
+                for jd in dumps:
+                    sk = kwarg(jd, "sort_keys")
+                    sorted_ok = isinstance(sk, ast.Constant) and sk.value is True
+                    if not sorted_ok:
+                        # normalised input: argument produced by a function that rebuilds dicts over sorted(...)
+                        a0 = jd.args[0] if jd.args else None
+                        vals = assigned_value(f, a0.id) if isinstance(a0, ast.Name) else [a0]
+                        sorted_ok = bool(vals) and all(isinstance(v, ast.Call) and call_attr(v) in ("normalize", "_normalize_run_space") for v in vals)
+                    R.check(sorted_ok, r_ord, rel, qn, norm(jd)[:90], "bytes that are hashed depend on mapping key order (json.dumps without sort_keys on an unnormalised value): reordering YAML keys changes the identity", jd.lineno)
+    if n_sites < 6:
+        raise AnalysisError(f"only {n_sites} hashing sites found in the identity slice (10 confirmed by reading)")
+    for rel, qn in ((IDENT, "RunSpaceIdentityService._rscf_v1"), (BUILDER, "_normalize_run_space")):
+        f = repo.func(rel, qn)
+        dcs = [n for n in ast.walk(f) if isinstance(n, ast.DictComp)]
+        ok = bool(dcs) and all(isinstance(dc.generators[0].iter, ast.Call) and call_attr(dc.generators[0].iter) == "sorted" for dc in dcs)
+        R.check(ok, r_ord, rel, qn, "dicts rebuilt over sorted(keys)", "the RSCF normaliser keeps mapping order", f.lineno)
+    # list order provenance in the sweep metadata
+    create = repo.func(SWEEP, "ParametricSweepFactory.create")
+    pm = next(n for n in ast.walk(create) if isinstance(n, FuncNode) and n.name == "_preprocessor_metadata")
+    for n in ast.walk(pm):
+        if isinstance(n, ast.Dict):
+            for k, v in zip(n.keys, n.values):
+                if isinstance(k, ast.Constant) and isinstance(v, ast.Call) and call_attr(v) in ("list", "tuple", "sorted") and v.args:
+                    src_attr = None
+                    for x in ast.walk(v.args[0]):
+                        if isinstance(x, ast.Constant) and isinstance(x.value, str) and x.value.startswith("_"):
+                            src_attr = x.value
+                    if call_attr(v) == "sorted":
+                        R.ok(r_ord, SWEEP, qualname_of(pm), f"{k.value!r}: sorted(...)", "", v.lineno)
+                        continue
+                    prov = _class_attr_order(create, src_attr) if src_attr else "unknown"
+                    R.check(prov in ("fixed", "sorted"), r_ord, SWEEP, qualname_of(pm), f"{k.value!r}: list(cls.{src_attr}) [{prov} order]",
+                            f"a list hashed into the node semantic id inherits {prov} order: reordering the keys of the sweep's mapping changes config_id", v.lineno)
+    cpc = repo.func(SEM, "compute_pipeline_config_id")
+    R.check(any(isinstance(v, ast.Call) and call_attr(v) == "sorted" for v in assigned_value(cpc, "ordered")), r_ord, SEM, "compute_pipeline_config_id", "pairs sorted before hashing", "config id depends on the order pairs were collected", cpc.lineno)
+    crk = repo.func(BUILDER, "_collect_required_context_keys")
+    rets = [n for n in walk_no_nested(crk) if isinstance(n, ast.Return) and n.value is not None and not (isinstance(n.value, ast.List) and not n.value.elts)]
+    R.check(bool(rets) and all(isinstance(r.value, ast.Call) and call_attr(r.value) == "sorted" for r in rets), r_ord, BUILDER, "_collect_required_context_keys", "required context keys returned sorted", "the required-key list of the inspection payload follows set iteration order (hash-seed dependent)", crk.lineno)
+    # set iteration anywhere in the slice
+    for rel, qn, f in sl:
+        for n in walk_no_nested(f):
+            it = n.iter if isinstance(n, (ast.For, ast.comprehension)) else None
+            if it is not None and isinstance(it, ast.Call) and call_attr(it) in ("set", "frozenset"):
+                R.violation(r_ord, rel, qn, norm(it)[:70], "iteration over a set inside the identity slice: order depends on PYTHONHASHSEED", getattr(it, "lineno", f.lineno))
+
+    # ------------------------------------------------------------------ D4 same functions, same fields on both paths
+    r_same = R.rule("C04-D4-inspect-equals-runtime", "inspection and run time compute the three pipeline-level ids with the same functions of semantiva.metadata.semantic_id / graph_builder, from the canonical nodes enriched with the same metadata and from (node_uuid, node semantic id) pairs built alike; each id prefix is produced in exactly one function", 9)
+    bip = repo.func(BUILDER, "build_inspection_payload")
+    for rel, qn, f in ((BUILDER, "build_inspection_payload", bip), (ORCH, "SemantivaOrchestrator.execute", ex)):
+        mod = repo.module(rel)
+        for fname, home in (("compute_pipeline_semantic_id", SEM), ("compute_pipeline_config_id", SEM), ("compute_node_semantic_id", SEM)):
+            cs = [c for c in calls_in(f) if call_attr(c) == fname]
+            ok = bool(cs)
+            for c in cs:
+                t = repo.resolve_call(mod, c)
+                ok = ok and len(t) == 1 and t[0][0].rel == home
+            R.check(ok, r_same, rel, qn, f"{fname} -> {home}", f"{qn} does not compute this id with {home}:{fname} (a private re-implementation or a missing call)", f.lineno)
+        pairs = [c for c in calls_in(f) if call_attr(c) == "append" and dotted_name(c.func.value) == "semantic_pairs"]
+        ok = len(pairs) == 1 and isinstance(pairs[0].args[0], ast.Tuple) and len(pairs[0].args[0].elts) == 2
+        if ok:
+            a, b = pairs[0].args[0].elts
+            ok = "uuid" in ast.unparse(a) and "semantic_id" in ast.unparse(b)
+        R.check(ok, r_same, rel, qn, "semantic_pairs.append((node_uuid, node_semantic_id))", "the pairs hashed into config_id are not (node uuid, node semantic id)", f.lineno)
+    for prefix, (home_rel, home_fn) in PREFIX_OWNERS.items():
+        owners = []
+        for mod, qn, f in repo.all_functions():
+            if mod.rel.startswith("semantiva/examples/"):
+                continue
+            for n in walk_no_nested(f):
+                if isinstance(n, ast.Constant) and isinstance(n.value, str) and n.value == prefix:
+                    owners.append((mod.rel, qn))
+        R.check(owners == [(home_rel, home_fn)], r_same, home_rel, home_fn, f"prefix {prefix!r} produced only here", f"id prefix {prefix!r} is produced in {owners}: a second, private hashing of the same identity exists", 0)
+
+    # ------------------------------------------------------------------ D5 commutative normalisation (C12 rules)
+    from . import c12
+
+    R.rule_prefix = "C04-D5/"
+    try:
+        c12.run(repo, R)
+    finally:
+        R.rule_prefix = ""
+    # the sweep payload shown by inspect is derived from the same metadata
+    from . import c05
+
+    R.rule_prefix = "C04-D4/"
+    try:
+        c05.sweep_metadata(repo, R)
+    finally:
+        R.rule_prefix = ""
+
+
+def _dumps_feeding(f: ast.AST, arg: Optional[ast.AST], depth: int = 0) -> List[ast.Call]:
+    """json.dumps calls whose result flows into *arg* (through locals, .encode(), f-strings, +)."""
+    if arg is None or depth > 3:
+        return []
+    out = []
+    for c in ast.walk(arg):
+        if isinstance(c, ast.Call) and call_name(c) == "json.dumps":
+            out.append(c)
+    for nm in {x.id for x in ast.walk(arg) if isinstance(x, ast.Name)}:
+        for v in assigned_value(f, nm):
+            out.extend(_dumps_feeding(f, v, depth + 1))
+    return out
+
+
+def _class_attr_order(create: ast.AST, attr: str) -> str:
+    """Order kind of the value assigned to class attribute *attr* in the generated sweep classes."""
+    locals_assigned = set()
+    for n in ast.walk(create):
+        if isinstance(n, ast.Assign) and any(isinstance(t, ast.Name) and t.id == attr for t in n.targets):
+            v = n.value
+            if isinstance(v, ast.Call) and call_attr(v) in ("list", "tuple") and v.args and isinstance(v.args[0], ast.Name):
+                locals_assigned.add(v.args[0].id)
+            elif isinstance(v, ast.Name):
+                locals_assigned.add(v.id)
+            elif isinstance(v, ast.Call) and call_attr(v) == "sorted":
+                return "sorted"
+    kinds = set()
+    for nm in locals_assigned:
+        for v in assigned_value(create, nm):
+            if isinstance(v, ast.Call) and call_attr(v) == "sorted":
+                kinds.add("sorted")
+            elif isinstance(v, ast.ListComp):
+                it = v.generators[0].iter
+                if isinstance(it, ast.Call) and call_attr(it) in ("values", "items", "keys"):
+                    kinds.add("mapping")
+                elif isinstance(it, ast.Call) and call_attr(it) == "sorted":
+                    kinds.add("sorted")
+                else:
+                    kinds.add("fixed")
+            elif isinstance(v, ast.List):
+                # appended to inside a loop over the element's signature parameters -> declaration order of the element
+                kinds.add("fixed")
+            else:
+                kinds.add("unknown")
+    if not kinds:
+        return "unknown"
+    for bad in ("mapping", "unknown"):
+        if bad in kinds:
+            return bad
+    return "sorted" if kinds == {"sorted"} else "fixed"
